@@ -31,6 +31,7 @@ type bCase struct {
 	Cfg     CfgSpec   `json:"cfg"`
 	Source  string    `json:"source"`
 	Expects []bExpect `json:"expects"`
+	Erring  int       `json:"erring,omitempty"`
 }
 
 type bRecv struct {
@@ -260,6 +261,25 @@ func genBlocks(r *RNG, classes []*GClass) *bCase {
 				}
 			}
 		}
+		// a body whose last statement is reported (undefined method, type
+		// mismatch) still closes its scope. Only in an outermost block outside a
+		// method: a diagnostic abandons the enclosing bodies, so nothing inside
+		// them is judged after it
+		if !inDef && ind == "" && r.Chance(1, 3) {
+			var cands []string
+			for _, n := range names {
+				if t, ok := inner[n]; ok && len(t) == 1 && contains(scal, t[0]) {
+					cands = append(cands, n)
+				}
+			}
+			cands = append(cands, locals...)
+			if len(cands) > 0 && r.Chance(2, 3) {
+				emit(ind + "  " + Pick(r, cands) + ".zz_nomethod")
+			} else {
+				emit(ind + "  1 + \"a\"")
+			}
+			bc.Erring++
+		}
 		emit(ind + close)
 		// after the block: shadowed outer variables have their previous type
 		for _, n := range names {
@@ -297,6 +317,7 @@ func judgeBlocks(c *CheckCtx, rn Runner, bc *bCase) *Violation {
 		return nil
 	}
 	c.Nontrivial(bc.Source)
+	c.Event("blocks_ending_in_a_reported_statement", int64(bc.Erring))
 	byRow := map[int][]Rec{}
 	for _, r := range parseOut(out) {
 		if r.Row > 0 && !r.Hint {
